@@ -23,6 +23,7 @@ import traceback
 
 HERE = os.path.dirname(os.path.dirname(os.path.abspath(__file__)))
 REPO = os.environ.get("VERIF_REPO", "/repo")
+OUT = os.environ.get("VERIF_OUT") or HERE  # where evidence/ and replays/ are written (self-tests redirect it)
 
 
 class CaseTimeout(BaseException):
@@ -293,7 +294,7 @@ def decide(a, mod, results, dead, t0, nsh):
         print(f"KNOWN-FINDING: property={pid} {kf['what']} [key={key}; observed {v['count']}x this run]")
     rc = 0
     for key, v in new_viol:
-        d = os.path.join(HERE, "replays", pid)
+        d = os.path.join(OUT, "replays", pid)
         os.makedirs(d, exist_ok=True)
         path = os.path.join(d, slug(key) + ".json")
         first = v["first"][0]
@@ -313,6 +314,10 @@ def decide(a, mod, results, dead, t0, nsh):
         inconclusive_reasons.append(f"{m['n_harness_errors']} harness error(s): " + m["harness_errors"][0]["tb"][-600:])
     if distinct < min_nt:
         inconclusive_reasons.append(f"only {distinct} distinct non-trivial cases reached the oracle (< {min_nt})")
+    rejected = sum(v for k, v in m["counters"].items() if k.startswith("declaration_rejected"))
+    if m["cases_run"] and rejected > 0.2 * m["cases_run"]:
+        inconclusive_reasons.append(f"{rejected}/{m['cases_run']} generated declarations were rejected by the library or failed to build "
+                                    f"(generator drift): " + ", ".join(f"{k}={v}" for k, v in m["counters"].items() if k.startswith("declaration_rejected")))
     if hasattr(mod, "conclusive"):
         why = mod.conclusive(m, a.tier)
         if why:
@@ -339,8 +344,8 @@ def decide(a, mod, results, dead, t0, nsh):
     ev = {"property_id": pid, "tier": a.tier, "seed": a.seed, "level": "exploration", "coverage": cov,
           "assumptions": list(getattr(mod, "ASSUMPTIONS", [])), "wall_s": round(wall, 2),
           "violations": len(new_viol)}
-    os.makedirs(os.path.join(HERE, "evidence"), exist_ok=True)
-    with open(os.path.join(HERE, "evidence", pid + ".json"), "w") as f:
+    os.makedirs(os.path.join(OUT, "evidence"), exist_ok=True)
+    with open(os.path.join(OUT, "evidence", pid + ".json"), "w") as f:
         json.dump(ev, f, indent=1, sort_keys=True)
     print(f"{pid} tier={a.tier} seed={a.seed}: evaluations={m['evaluations']} distinct_nontrivial={distinct} "
           f"cases={m['cases_run']} known={len(known_seen)} new_violations={len(new_viol)} wall={wall:.1f}s")
